@@ -102,6 +102,8 @@ type world struct {
 	defVal  interface{}
 	defAbs  rec
 	started bool
+	pattern string // resource pattern ("res" unless set)
+	workers int    // worker count (1 unless set)
 }
 
 func (w *world) open() error {
@@ -114,7 +116,13 @@ func (w *world) open() error {
 	w.db = db
 	s := res.NewService("test")
 	s.SetLogger(nil)
-	s.SetWorkerCount(1)
+	if w.pattern == "" {
+		w.pattern = "res"
+	}
+	if w.workers == 0 {
+		w.workers = 1
+	}
+	s.SetWorkerCount(w.workers)
 	w.defVal = nil
 	w.defAbs = rec{"t": "missing"}
 	if w.cfg.def {
@@ -163,15 +171,15 @@ func (w *world) open() error {
 	}
 	var pv interface{}
 	if w.cfg.pkg == "middleware" {
-		pv = core.Catch(func() { s.Handle("res", typ, opt) })
+		pv = core.Catch(func() { s.Handle(w.pattern, typ, opt) })
 	} else {
-		pv = core.Catch(func() { s.Handle("res", opt) })
+		pv = core.Catch(func() { s.Handle(w.pattern, opt) })
 	}
 	if pv != nil {
 		db.Close()
 		return fmt.Errorf("Handle panicked: %v", pv)
 	}
-	s.AddListener("res", func(ev *res.Event) {
+	s.AddListener(w.pattern, func(ev *res.Event) {
 		w.lmu.Lock()
 		w.lastEv = ev
 		w.lmu.Unlock()
@@ -209,10 +217,12 @@ func (w *world) shut() {
 	w.db.Close()
 }
 
-func (w *world) get() (rec, error) {
+func (w *world) get() (rec, error) { return w.getName(w.rname) }
+
+func (w *world) getName(rname string) (rec, error) {
 	w.inboxN++
 	inbox := fmt.Sprintf("inbox.l%d", w.inboxN)
-	if n, err := w.conn.Deliver("get."+w.rname, inbox, nil); n != 1 || err != nil {
+	if n, err := w.conn.Deliver("get."+rname, inbox, nil); n != 1 || err != nil {
 		return nil, fmt.Errorf("get delivered %d times: %v", n, err)
 	}
 	deadline := time.After(3 * time.Second)
@@ -262,6 +272,12 @@ var lvals = []interface{}{float64(1), float64(2), "x", nil, true}
 
 // event performs one random event inside a With callback and records it.
 func (w *world) event(rng *rand.Rand) (rec, error) {
+	e, do := w.genEvent(rng)
+	return w.perform(e, do)
+}
+
+// genEvent draws one event: its description for the reference and the call that performs it.
+func (w *world) genEvent(rng *rand.Rand) (rec, func(r res.Resource)) {
 	e := rec{"ev": "", "vals": [][]string{}, "v": "", "idx": 0, "data": rec{"t": "missing"}, "pub": false, "old": [][]string{}, "hasdata": false, "deleted": rec{"t": "missing"}}
 	var do func(r res.Resource)
 	if w.cfg.typ == "model" {
@@ -322,6 +338,11 @@ func (w *world) event(rng *rand.Rand) (rec, error) {
 			do = func(r res.Resource) { r.AddEvent(v, idx) }
 		}
 	}
+	return e, do
+}
+
+// perform executes the event inside a With callback and records what was published, handed to listeners and served.
+func (w *world) perform(e rec, do func(r res.Resource)) (rec, error) {
 	from := len(w.conn.Pubs())
 	w.lmu.Lock()
 	w.lastEv = nil
@@ -427,6 +448,85 @@ func history(cfg lcfg, seed int64, n int) (rec, error) {
 	return rec{"upto": 0, "def": def, "evs": evs, "last": last, "reopened": reopened, "dbg": fmt.Sprintf("%s seed %d", cfg, seed)}, nil
 }
 
+// concurrentHistory applies independent event histories to several resources of one pattern at the same
+// time (one goroutine per resource, several workers) and records, per resource, the events and what is
+// served in the end and after reopening: the fold must not depend on what happens to other resources.
+func concurrentHistory(cfg lcfg, seed int64, nres, nev int) ([]rec, error) {
+	dir, err := os.MkdirTemp("", "vlegacyc-")
+	if err != nil {
+		return nil, err
+	}
+	defer os.RemoveAll(dir)
+	w := &world{cfg: cfg, dir: dir, pattern: "res.$id", workers: 4}
+	if err := w.open(); err != nil {
+		return nil, err
+	}
+	evs := make([][]rec, nres)
+	var wg sync.WaitGroup
+	errs := make([]error, nres)
+	for i := 0; i < nres; i++ {
+		wg.Add(1)
+		go func(i int) {
+			defer wg.Done()
+			rng := rand.New(rand.NewSource(seed*100 + int64(i)))
+			rname := fmt.Sprintf("test.res.%d", i)
+			for k := 0; k < nev; k++ {
+				e, do := w.genEvent(rng)
+				doneCh := make(chan struct{})
+				if err := w.s.With(rname, func(r res.Resource) {
+					defer close(doneCh)
+					core.Catch(func() { do(r) })
+				}); err != nil {
+					errs[i] = err
+					return
+				}
+				select {
+				case <-doneCh:
+				case <-time.After(5 * time.Second):
+					errs[i] = fmt.Errorf("With callback on %s did not run", rname)
+					return
+				}
+				evs[i] = append(evs[i], e)
+			}
+		}(i)
+	}
+	wg.Wait()
+	for _, e := range errs {
+		if e != nil {
+			w.shut()
+			return nil, e
+		}
+	}
+	finals := make([]rec, nres)
+	for i := range finals {
+		if finals[i], err = w.getName(fmt.Sprintf("test.res.%d", i)); err != nil {
+			w.shut()
+			return nil, err
+		}
+	}
+	def := w.defAbs
+	w.shut()
+	if err := w.open(); err != nil {
+		return nil, fmt.Errorf("reopen: %v", err)
+	}
+	var out []rec
+	for i := range finals {
+		reopened, err := w.getName(fmt.Sprintf("test.res.%d", i))
+		if err != nil {
+			w.shut()
+			return nil, err
+		}
+		es := evs[i]
+		if es == nil {
+			es = []rec{}
+		}
+		out = append(out, rec{"upto": 99999, "def": def, "evs": es, "last": finals[i], "reopened": reopened,
+			"dbg": fmt.Sprintf("%s seed %d: resource %d of %d changed concurrently", cfg, seed, i, nres)})
+	}
+	w.shut()
+	return out, nil
+}
+
 // Run executes the C20 check.
 func Run(c *core.Ctx) {
 	c.SetLevel("model_checking")
@@ -452,6 +552,25 @@ func Run(c *core.Ctx) {
 			recs = append(recs, r)
 		}
 	}
+	// several resources of one pattern changed at the same time
+	nconc := 0
+	for ci, cfg := range cfgs {
+		if cfg.index {
+			continue
+		}
+		for h := 0; h < c.Pick(1, 6); h++ {
+			rs, err := concurrentHistory(cfg, c.Seed*77+int64(ci*10+h), c.Pick(8, 24), 12)
+			if err != nil {
+				c.Violate(core.Violation{Signature: map[string]string{"engine": "legacy", "kind": "harness:" + cfg.String()}, Text: err.Error(), Replay: cfg.String()})
+				continue
+			}
+			for _, r := range rs {
+				recs = append(recs, r)
+				nconc++
+			}
+		}
+	}
+	c.Cover("resources_changed_concurrently", nconc)
 	var bad []int
 	core.CheckRecords(c, "TraceLegacy", "TraceLegacy.cfg", recs, nil, func(i int, r interface{}, inv string) { bad = append(bad, i) })
 	if len(bad) > 0 {
@@ -459,6 +578,11 @@ func Run(c *core.Ctx) {
 		var src, upto []int
 		for _, i := range bad {
 			h := recs[i].(rec)
+			if h["upto"] == 99999 {
+				c.Violate(core.Violation{Signature: map[string]string{"engine": "legacy", "kind": "concurrent:" + strings.SplitN(fmt.Sprint(h["dbg"]), " ", 2)[0]},
+					Text: fmt.Sprintf("after %d events get serves %v (after reopening %v), which is not the fold of the resource's events [%v]", len(h["evs"].([]rec)), h["last"], h["reopened"], h["dbg"]), Replay: h})
+				continue
+			}
 			n := len(h["evs"].([]rec))
 			for k := 1; k <= n; k++ {
 				r2 := rec{}
@@ -479,6 +603,9 @@ func Run(c *core.Ctx) {
 		})
 		for _, i := range bad {
 			h := recs[i].(rec)
+			if h["upto"] == 99999 {
+				continue
+			}
 			evs := h["evs"].([]rec)
 			k := first[i]
 			if k == 0 {
